@@ -17,6 +17,7 @@ def _bool_suite(ck, acts, plan, features="idx,cache,mt", module="TraceManager"):
     for i, (drv, args) in enumerate(plan):
         od = os.path.join(ck.outdir, "%02d-%s-%s" % (i, drv, args.get("kind", "")))
         res = vlib.run_driver(binary, drv, args, od)
+        ck._summaries = getattr(ck, "_summaries", []) + res["summaries"]
         fs = ck.add_driver(res)
         files += fs
         cmds.append(" ".join(map(str, res["cmd"])))
@@ -102,9 +103,14 @@ def c04(ck, tier, seed):
 def c05(ck, tier, seed):
     ck.cov["rule"] = ("S: reference-count audit rc = handles + parent edges + internal (ZBDD tautology chain) on every "
                       "snapshot; gc: returned count, completeness (no node with rc 0 survives), every handle keeps edge "
-                      "and denotation")
+                      "and denotation; histories with capacities 128..512 drive the node count across the background "
+                      "collector's high-water mark (snapshots under the exclusive lock); design: Store.tla model check")
     plan = _hist_plan(tier, seed, quick_count=80)
+    # automatic background collections: small capacities, garbage pushed across the high-water mark
+    plan += [("bggc", {"kind": k, "seed": seed * 23 + i, "tier": tier}) for i, k in enumerate(BOOL_KINDS)]
     _bool_suite(ck, ["C05"], plan)
+    ck.cov["background_collections_seen"] = sum(
+        s.get("extra", {}).get("bg_collections_seen", 0) for s in getattr(ck, "_summaries", []))
     store_mc(ck, tier)
 
 
